@@ -77,6 +77,8 @@ def legal_on_tree(parent, children, kind, cfg):
         if p is not None and p not in ids:
             return "parent of %s (%s) not active" % (i, p)
         kids = children.get(i, [])
+        if kind[i] == "final":
+            continue   # a <final> is atomic for the engines whatever a damaged document nests inside it
         if any(c.startswith('?') for c in kids):
             continue   # a child without a name cannot be recognised in the configuration
         if kind[i] == "parallel":
